@@ -15,6 +15,8 @@ from concurrent.futures import FIRST_COMPLETED, ProcessPoolExecutor, wait
 
 VERIF = os.path.dirname(os.path.dirname(os.path.abspath(__file__)))
 NPROC = int(os.environ.get("VERIF_JOBS", "16"))
+CHUNK_PATHS = int(os.environ.get("VERIF_CHUNK", "120"))
+CHUNK_SECS = 5.0
 
 EXIT_OK, EXIT_VIOLATION, EXIT_INCONCLUSIVE, EXIT_HARNESS = 0, 1, 2, 3
 
@@ -154,7 +156,7 @@ def run_check(pid, tier, seed, wall_cap=None, out_evidence=True, verbose=True):
                 a.outstanding -= 1
                 a.merge(d)
                 for p in d["leftovers"]:
-                    pending.append((qidx, p, 400, 20.0, False))
+                    pending.append((qidx, p, CHUNK_PATHS, CHUNK_SECS, False))
             if time.time() > deadline:
                 timed_out = True
                 for t in pending:
